@@ -93,7 +93,8 @@ def gen_cases(rng, tier, scale):
         cases.append({'line': f'{grp}p ' + ' ; '.join(ops), 'kind': 'alone', 'grp': grp, 'tpl': body, 'tags': ['alone']})
     # the indented call as the first thing the template writes, p beginning with a construct that writes through another
     # frame (a nested partial, a block, an expression) — on every run, through every entry point
-    FIRST = [{'p': 'x{{#if t}}{{> q1}}{{/if}}rest\n', 'q1': 'Q\n'},  {'p': 'x{{#with o}}{{> q1}}{{/with}}r\n', 'q1': 'Q\n'},
+    FIRST = [{'p': 'items:{{> q1}}end\n', 'q1': '\n- one\n- two\n'}, {'p': '[{{> q1}}]\n', 'q1': '{{ml}}'}, {'p': 'a{{#each l}}<{{> q1}}>{{/each}}z\n', 'q1': 'u\nv'},
+             {'p': 'x{{#if t}}{{> q1}}{{/if}}rest\n', 'q1': 'Q\n'},  {'p': 'x{{#with o}}{{> q1}}{{/with}}r\n', 'q1': 'Q\n'},
              {'p': 'x{{> w}}rest\n', 'w': '{{> q1}}', 'q1': 'Q\n'}, {'p': '{{one}}{{#with o}}{{> q1}}{{/with}}z\n', 'q1': 'a\nb\n'},
              {'p': '  {{one}}\nx\n'}, {'p': '{{#if t}}\n  {{one}}\n{{/if}}\nx\n'}, {'p': '{{#each l}}\n\t{{one}}!\n{{/each}}\n'}, {'p': '{{! c }}\n  {{{ml}}}\n'},
              {'p': '{{> q1}}\n', 'q1': '{{#if t}}\n   {{one}} {{e}}\n{{else}}\n{{/if}}\n'}, {'p': ' {{#if t}}a{{/if}}\n  {{#with o}}{{one}}{{/with}}\n'},
